@@ -17,6 +17,9 @@ CHECKS = {
  "C14": ("fault_enumeration", "E3 envfault", "exhaustive enumeration of every cut offset and every single-byte alteration of every marker/magic byte of real multi-block files, each read by the real Reader and judged against block boundaries from an independent layout parser",
          "Every byte offset of 24 real three-block files (4 schemas x 6 codecs, object counts 1, 2, 100) is used as a cut point and every marker/magic byte is altered three ways; the real Reader must yield exactly the complete blocks before the damage and then one error (or a clean end on a block boundary).",
          "5 C14", "block boundaries come from refocf, the independent layout parser"),
+ "C13": ("fault_enumeration", "E3 envfault", "deviation-bounded exhaustive enumeration of sink answer sequences (short writes, Ok(0), Err, Interrupted, flush errors at every call index) over every write path of the real library, compared with the bytes delivered to an in-memory buffer",
+         "Every write scenario (datum writer over the schema corpus, container writer per codec, single-object writers, serde writers incl. out-of-order structs and buffered blocks) is executed under every sink answer sequence with at most k deviations plus uniform chunking; either an error is returned or the sink holds exactly the fault-free bytes, and documented byte counts equal what the sink accepted.",
+         "5 C13", "sink obeys the std::io::Write contract; deviation bound k per tier in evidence"),
 }
 def main():
     checks = []
